@@ -1211,7 +1211,7 @@ def main(outfile):
     py2lean_dispatch.main(os.path.join(os.path.dirname(outfile), 'TranslatedDispatch.lean'),
                           dict(Untranslatable=Untranslatable, node_path=node_path, fn_ast=fn_ast, emit=emit,
                                write_if_changed=write_if_changed, block=block))
-    import py2lean_repeat                                        # separate module: Repeat._event (C18)
+    import py2lean_repeat                                        # separate module: Repeat._event, Repeat._maintask (C18)
     py2lean_repeat.main_repeat(os.path.join(os.path.dirname(outfile), 'TranslatedRepeat.lean'), write_if_changed)
     import py2lean_fsm
     py2lean_fsm.main_fsm(os.path.join(os.path.dirname(outfile), 'TranslatedFsm.lean'), sys.modules[__name__])
